@@ -15,7 +15,7 @@ MANIFEST = {
             'outside the crate. R-XUD: for x-user-defined, which has no table, the converters\' exact classes are extracted by interval '
             'propagation (bytes 00-7F / U+0000-U+007F identity, 80-FF <-> U+F780-U+F7FF, everything else unmappable with the '
             'character itself as payload). That bytes 00-7F really round-trip in each of the other ASCII-compatible converters is '
-            'behaviour and not decided here (their ASCII paths are the shared kernels of C14/C17).',
+            'behaviour and not decided here (their ASCII paths are the shared kernels of C14/C17). C20-D2.encode: every returning path of Encoding::encode reports, as the encoding used, the value of its self.output_encoding() call.',
     'note': 'Trusted: rustc const evaluation and MIR, mirx, rule library, the Standard\'s encoding list transcribed in rules/p_c20.py.',
     'technique': 'abstract interpretation over a finite pointer domain (40 statics) + obligations on const-evaluated statics',
 }
